@@ -384,6 +384,7 @@ func buildTypes(f transFunc) transFunc {
 var openStructs = map[string][]fieldSpec{
 	"URL": {{"Scheme", "string"}, {"User", "opt:Userinfo"}, {"Fragment", "string"}, {"RawQuery", "string"}, {"Path", "string"},
 		{"Rest", "URLRest"}},
+	"SamplingConfig": {{"Initial", "int"}, {"Thereafter", "int"}, {"Hook", "opt:SamplerHook"}},
 }
 var openFields = map[string]fieldSpec{"#ev": {"ev", "[]Event"}}
 var openCalls = map[string]shim{
@@ -697,7 +698,7 @@ var transSpecs = []transSpec{
 			map[string]shim{"newEncoder": {kind: "extstmt", f: "newEncoder", res: []string{"opt:Encoder", "error"}, trace: "#ev"}}),
 		openFunc("config.go", "Config", "buildOptions",
 			map[string]fieldSpec{"Development": {"development", "bool"}, "DisableCaller": {"disableCaller", "bool"},
-				"DisableStacktrace": {"disableStacktrace", "bool"}, "Sampling": {"sampling", "opt:SamplingConfig"},
+				"DisableStacktrace": {"disableStacktrace", "bool"}, "Sampling": {"sampling", "ptr:struct:SamplingConfig"},
 				"InitialFields": {"initialFields", "map:string:any"}},
 			map[string]string{"ErrorLevel": "val:i8|.int 2", "WarnLevel": "val:i8|.int 1"},
 			map[string]shim{
@@ -718,7 +719,7 @@ var transSpecs = []transSpec{
 				"Level": {"level", "AtomicLevel"},
 				// read by buildOptions
 				"Development": {"development", "bool"}, "DisableCaller": {"disableCaller", "bool"},
-				"DisableStacktrace": {"disableStacktrace", "bool"}, "Sampling": {"sampling", "opt:SamplingConfig"},
+				"DisableStacktrace": {"disableStacktrace", "bool"}, "Sampling": {"sampling", "ptr:struct:SamplingConfig"},
 				"InitialFields": {"initialFields", "map:string:any"}},
 			map[string]string{"AtomicLevel{}": "val:AtomicLevel|.list []"},
 			map[string]shim{
